@@ -1600,6 +1600,39 @@ def _(a):
                path_eq(r._impl._path, ch.cur._impl._path))
 
 
+# a block all of whose statements the rewrite removed: several forwarding functions answer with an EMPTY block
+# (DoDeletePass, the dead-code passes, Block._move for a block that only held moved statements).  At the API
+# that must be "the target no longer exists", never a cursor and never another error.
+c_pfb = contract("C06", F_API, "Procedure.forward", name=F_API + "::Procedure.forward [block that became empty]")
+c_pfb.rlimit = RLIMIT
+
+
+@c_pfb.inputs
+def _(g):
+    ir0 = mk_proc([leaf("a"), leaf("b"), leaf("c")], name="p0")
+    ir1 = mk_proc([leaf("a1"), leaf("b1"), leaf("c1")], name="p1")
+    lo, hi = g.choose([0, 1, 2, 3], "lo"), g.choose([0, 1, 2, 3], "hi")
+    g.assume(lo <= hi)
+
+    def fwd(c):
+        return IC.Block(ir1, IC.Node(ir1, []), "body", range(lo, hi))
+    p0 = _API.Procedure(ir0)
+    p1 = _API.Procedure(ir1, _provenance_eq_Procedure=p0, _forward=fwd)
+    cur = _PC.BlockCursor(IC.Block(ir0, IC.Node(ir0, []), "body", range(0, 2)), p0)
+    return {"self": p1, "cur": cur, "__ghost__": {"lo": lo, "hi": hi, "ir1": ir1}}
+
+
+c_pfb.raises(InvalidCursorError, when=lambda a: a.ghost.lo == a.ghost.hi,
+             label="InvalidCursorError exactly when the forwarded block is empty")
+
+
+@c_pfb.ensures("a non-empty forwarded block is returned as a block cursor of self; an empty one is never returned")
+def _(a):
+    r = a.result
+    return And(a.ghost.lo < a.ghost.hi, isinstance(r, _PC.BlockCursor), r._proc is a.self,
+               r._impl._root is a.ghost.ir1, r._impl._range.start == a.ghost.lo, r._impl._range.stop == a.ghost.hi)
+
+
 class CapResult(types.SimpleNamespace):
     def __str__(self):
         return (f"explicit={[stable(e) if x is None else stable(x) for e, x in self.explicit]} "
